@@ -577,7 +577,9 @@ def evaluate_sizes(nodes, warn=null_warn):
             padding = (alignment - byte_size % alignment) % alignment
             byte_size += padding
             if any(is_member_dynamic(m) for m in node_.members):
-                prev_member.padding = (node_.members[-1].alignment < alignment) and (-alignment) or 0
+                last = node_.members[-1]
+                ends_aligned = last.alignment == alignment and last.byte_size % alignment == 0
+                prev_member.padding = 0 if ends_aligned else -alignment
             else:
                 prev_member.padding = padding
         node_.byte_size, node_.alignment = byte_size, alignment
